@@ -190,11 +190,12 @@ def run(eng: Engine, ck: Check):
     ck.floor('R-C12-SENDFAIL', min(len(send), len(reg), len(bld)), 1)
     if send and reg and bld:
         sn, rn, bn = c.nodes_for(send[0]), c.nodes_for(reg[0]), c.nodes_for(bld[0])
-        # on the response path the waiter is registered before the command is sent
-        resp_assume = [a for a in c.nodes if a.kind == 'assume' and a.polarity and 'response' in unparse(a.ast) and a in c.dominators().get(rn[0], set())]
-        p = c.find_path(resp_assume, lambda n: n in sn, avoid=lambda n: n in rn) if resp_assume else 'x'
-        ck.ob('R-C12-SENDFAIL', ex, reg[0], 'execute(): the waiter is registered before the command is sent (a fast reply cannot be missed)',
-              p is None, 'send reachable before registration on the response path', construct='register before send')
+        # the waiter is registered before the command is sent: no path leads from the send to the registration,
+        # and the expected response is built before the send
+        late = any(r in c.reach_from(sn) for r in rn)
+        built_first = all(any(b_ in c.dominators()[s_] for b_ in bn) for s_ in sn)
+        ck.ob('R-C12-SENDFAIL', ex, reg[0], 'execute(): the waiter is built and registered before the command is sent (a fast reply cannot be missed)',
+              not late and built_first, 'the registration is reachable after the send', construct='register before send')
         t = protected_by_try_catching(eng, ex, send[0], 'Exception', 'BaseException')
         ok = False
         if t is not None:
